@@ -73,6 +73,64 @@ def attr_uses(attrs, kinds=("Load", "fmt")):
     return sorted(out)
 
 
+def flag_writes(attrs=("titratable", "cysteine_bridge", "exclude_cys_from_results")):
+    """every assignment to the given attributes in propka/*.py (and every setattr call, which could be one):
+    (file, function, attribute, target object, assigned expression, enclosing if-conditions inside the function)"""
+    out = []
+    for f in sorted((common.REPO / "propka").glob("*.py")):
+        tree = ast.parse(f.read_text())
+
+        def walk(node, fn, guards):
+            for field, value in ast.iter_fields(node):
+                for ch in (value if isinstance(value, list) else [value]):
+                    if not isinstance(ch, ast.AST):
+                        continue
+                    nf, ng = fn, guards
+                    if isinstance(ch, (ast.FunctionDef, ast.ClassDef)):
+                        nf, ng = (fn + "." if fn else "") + ch.name, ()
+                    if isinstance(node, ast.If) and field in ("body", "orelse"):
+                        t = ast.unparse(node.test)
+                        ng = guards + ((t if field == "body" else f"not ({t})"),)
+                    if isinstance(node, (ast.For, ast.While, ast.Try, ast.With)) and field != "body" and field in ("orelse", "finalbody", "handlers"):
+                        ng = guards + (f"<{type(node).__name__}.{field}>",)
+                    tg = []
+                    if isinstance(ch, ast.Assign):
+                        tg = [(t, ch.value) for t in ch.targets]
+                    elif isinstance(ch, (ast.AugAssign, ast.AnnAssign)) and ch.value is not None:
+                        tg = [(ch.target, ch.value)]
+                    for t, v in tg:
+                        for tt in (t.elts if isinstance(t, (ast.Tuple, ast.List)) else [t]):
+                            if isinstance(tt, ast.Attribute) and tt.attr in attrs:
+                                val = "<unpacked>" if isinstance(t, (ast.Tuple, ast.List)) else ("<augmented> " if isinstance(ch, ast.AugAssign) else "") + ast.unparse(v)
+                                out.append((f.name, nf or "<module>", tt.attr, ast.unparse(tt.value), val, " and ".join(ng)))
+                    if isinstance(ch, ast.Call) and isinstance(ch.func, ast.Name) and ch.func.id == "setattr":
+                        out.append((f.name, nf or "<module>", "setattr", ast.unparse(ch.args[0]) if ch.args else "",
+                                    ast.unparse(ch.args[1]) if len(ch.args) > 1 else "", " and ".join(ng)))
+                    if isinstance(ch, ast.Attribute) and ch.attr == "__dict__":
+                        out.append((f.name, nf or "<module>", "__dict__", ast.unparse(ch.value), "", " and ".join(ng)))
+                    walk(ch, nf, ng)
+        walk(tree, "", ())
+    return out
+
+
+def bridged_sentinel():
+    """the value Group.calculate_total_pka assigns when the atom is bridged: the function must BEGIN with
+    `if self.atom.cysteine_bridge: self.pka_value = <constant>; return`"""
+    from fractions import Fraction
+    tree = ast.parse((common.REPO / "propka" / "group.py").read_text())
+    for n in ast.walk(tree):
+        if isinstance(n, ast.FunctionDef) and n.name == "calculate_total_pka":
+            body = [b for b in n.body if not (isinstance(b, ast.Expr) and isinstance(b.value, ast.Constant))]
+            b0 = body[0] if body else None
+            if isinstance(b0, ast.If) and ast.unparse(b0.test) == "self.atom.cysteine_bridge" and len(b0.body) == 2 and not b0.orelse \
+                    and isinstance(b0.body[0], ast.Assign) and ast.unparse(b0.body[0].targets[0]) == "self.pka_value" \
+                    and isinstance(b0.body[0].value, ast.Constant) and isinstance(b0.body[0].value.value, (int, float)) \
+                    and isinstance(b0.body[1], ast.Return) and b0.body[1].value is None:
+                return Fraction(repr(b0.body[0].value.value))
+    TABLE_ERRORS["bridged_sentinel"] = "calculate_total_pka does not begin with the bridged-cysteine early return"
+    return None
+
+
 def global_object_events():
     """Classes instantiated at module level or in class bodies (process-global objects: NCCG, PROTONATOR, descriptors ...) and, for each of
     their methods, the ordered accesses of `self.<attr>`: R (load), W (store / augmented store), M (store into self.<attr>[...]).
@@ -289,6 +347,12 @@ def regenerate():
     inv += ["(* further places where state could survive a run: (kind, file, function, name) *)",
             "Definition hidden_state_sites : list (string * string * string * string) :=\n  "
             + clist([f"({cstr(a)}, {cstr(b)}, {cstr(c)}, {cstr(d)})" for a, b, c, d in hidden_state_sites()]) + ".", ""]
+    inv += ["(* every assignment to the titration flags and to the bridge flag: (file, function, attribute, target, value, guards) *)",
+            "Definition flag_writes : list (string * string * string * string * string * string) :=\n  "
+            + clist(["(" + ", ".join(cstr(x) for x in row) + ")" for row in flag_writes()]) + ".", ""]
+    bs = bridged_sentinel()
+    inv += ["From Coq Require Import QArith.", "(* pKa value Group.calculate_total_pka reports for a bridged cysteine (early return at the top of the function) *)",
+            "Definition bridged_pka_sentinel : option Q := " + (f"Some (Qmake ({bs.numerator})%Z {bs.denominator}%positive)" if bs is not None else "None") + ".", ""]
     holders, events = global_object_events()
     inv += ["(* process-global objects (module-level / class-level instances of propka classes) and the self-attribute accesses of their methods *)",
             "Definition global_objects : list (string * string * string) :=\n  " + clist([f"({cstr(a)}, {cstr(b)}, {cstr(c)})" for a, b, c in holders]) + ".",
